@@ -147,6 +147,18 @@ def _run(ctx):
         ctx.count("skeletons")
     ctx.exhaustive["ordered_sibling_kind_pairs_x_parent_x_position"] = True
 
+    # deterministic extremes: deep nesting, large indent arguments, very wide sibling lists
+    if ctx.shard == 0:
+        ids2 = lg.Ids()
+        chain = gen.TAG("p", lg.leaf("text", ids2), gen.TAG("em", lg.leaf("text", ids2), ws=False, via_fn=False), via_fn=False)
+        for d in range(70):
+            chain = gen.TAG("div", lg.leaf("text", ids2), chain, ws=True, via_fn=False) if d % 2 else gen.TAG("section", chain, lg.leaf("text", ids2), ws=True, via_fn=False)
+        for indent, eol in ((0, "\n"), (45, "\n"), (3, "\r\n")):
+            check_case(ctx, chain, indent, eol)
+        kids = [lg.leaf("text", ids2) if i % 4 else gen.TAG("li", lg.leaf("text", ids2), ws=True, via_fn=False) for i in range(700)]
+        check_case(ctx, gen.TAG("ul", *kids, ws=True, via_fn=False), 2, "\n")
+        check_case(ctx, {"k": "list", "t": "taglist", "c": kids}, 41, "\n")
+        ctx.count("extreme_shapes", 5)
     # fixed documentation examples
     ex = gen.TAG("div", gen.T("a"), gen.TAG("span", gen.T("b"), ws=False), gen.TAG("p", gen.T("c")), gen.T("d"))
     ctx.sample({"recipe": ex, "output": gen.build(ex).get_html_string()})
